@@ -295,6 +295,39 @@ pub fn named_key_sequences() -> Vec<Vec<KeyCode>> {
 
 pub fn magic_key_histories() -> Vec<Vec<HOp>> {
     let mut out = Vec::new();
+    // many keys held at once (beyond any fixed-size list of held keys), modifiers pressed before or after them, then all the
+    // other keys released in either order
+    {
+        let plain: Vec<KeyCode> = NAMED_KEYS.iter().copied().filter(|k| !MOD_KEYS.contains(k)).collect();
+        let modsets: [&[KeyCode]; 4] = [&[KeyCode::LShift], &[KeyCode::RControl], &[KeyCode::RAltGr], &[KeyCode::LShift, KeyCode::LControl, KeyCode::LAlt]];
+        for n in [1usize, 2, 5, 7, 8, 9, 15, 16, 17, 31, 32, 33, 63, 64, 65, 100, 115] {
+            let keys: Vec<KeyCode> = plain.iter().copied().take(n).collect();
+            for ms in modsets.iter() {
+                for mods_first in [false, true] {
+                    for reverse in [false, true] {
+                        let mut h: Vec<HOp> = Vec::new();
+                        if mods_first {
+                            h.extend(ms.iter().map(|m| HOp::Ev(*m, KeyState::Down)));
+                        }
+                        h.extend(keys.iter().map(|k| HOp::Ev(*k, KeyState::Down)));
+                        if !mods_first {
+                            h.extend(ms.iter().map(|m| HOp::Ev(*m, KeyState::Down)));
+                        }
+                        let mut ups: Vec<KeyCode> = keys.clone();
+                        if reverse {
+                            ups.reverse();
+                        }
+                        h.extend(ups.iter().map(|k| HOp::Ev(*k, KeyState::Up)));
+                        h.push(HOp::Ev(KeyCode::A, KeyState::Down));
+                        h.push(HOp::Ev(KeyCode::A, KeyState::Up));
+                        h.extend(ms.iter().map(|m| HOp::Ev(*m, KeyState::Up)));
+                        h.push(HOp::Ev(KeyCode::A, KeyState::Down));
+                        out.push(h);
+                    }
+                }
+            }
+        }
+    }
     // short runs over the keys the decoder names: each typed with nothing / each momentary modifier / CapsLock held
     {
         let ctxs: [&[KeyCode]; 9] = [&[], &[KeyCode::LShift], &[KeyCode::RShift], &[KeyCode::LControl], &[KeyCode::RControl], &[KeyCode::LAlt], &[KeyCode::RAltGr], &[KeyCode::CapsLock], &[KeyCode::LShift, KeyCode::RControl, KeyCode::LAlt]];
